@@ -18,7 +18,7 @@ RULE = ('Histories (Hypothesis RuleBasedStateMachine, <= 25 steps) over the ops:
         'one stage / the remaining stages / metar_msg on a live chunk | set a leaf of the global dict, replace a nested '
         'dict or list in it, or edit a nested list in place | edit a live chunk\'s snapshot in place (nested leaf, '
         'list.append) | reset_prms(). Model = deep copies kept by the harness. After every op: each caller frame (values, '
-        'dtypes, index, columns) and each caller dict deep-equals its pre-call copy; the global dict equals the model '
+        'dtypes, index, columns) and each caller dict deep-equals its pre-call copy; a chunk that has completed its stages without harness edits of its own snapshot shows bit-exactly the result of a fresh run of the same frame under reset globals with its snapshot handed over per call (behavioural form of the snapshot clause); the global dict equals the model '
         'global (changed only by the harness\'s own edits); every live chunk\'s prms equals its model snapshot '
         '(construction-time global overridden by the known per-call keys, plus the harness\'s own edits of that chunk). '
         'Non-trivial = the history holds a nested in-place edit (global or chunk) followed by a construction, or a run on '
@@ -137,7 +137,8 @@ class Interp:
         if self.nested_edit_seen:
             self.nontrivial = True
         chunk = CeiloChunk(frame, prms=prms)
-        self.chunks.append({'chunk': chunk, 'model': expected, 'stage': 0, 'variant': op['variant']})
+        self.chunks.append({'chunk': chunk, 'model': expected, 'stage': 0, 'variant': op['variant'], 'frame': frame,
+                            'model_at_build': copy.deepcopy(expected)})
 
     def op_run_api(self, op):
         frame, prms, expected = self._handover(op)
@@ -145,7 +146,9 @@ class Interp:
             self.nontrivial = True
         chunk = self.amp.run(frame, prms=prms)
         chunk.metar_msg()
-        self.chunks.append({'chunk': chunk, 'model': expected, 'stage': 3, 'variant': op['variant']})
+        self.chunks.append({'chunk': chunk, 'model': expected, 'stage': 3, 'variant': op['variant'], 'frame': frame,
+                            'model_at_build': copy.deepcopy(expected)})
+        self._behaves_like_snapshot(self.chunks[-1])
 
     def op_stage(self, op):
         if not self.chunks:
@@ -166,6 +169,28 @@ class Interp:
             ent['stage'] += 1
         if ent['variant'] != 'canonical':
             self.nontrivial = True
+        if ent['stage'] >= 3:
+            self._behaves_like_snapshot(ent)
+
+    def _behaves_like_snapshot(self, ent):
+        """ The finished chunk must show exactly what its own snapshot implies, whatever the global set held while
+        its stages ran: compare with a fresh run of the same frame under reset globals with the full snapshot
+        handed over per call. """
+        if ent.get('compared'):
+            return
+        ent['compared'] = True
+        saved = copy.deepcopy(self.dynamic.AMPYCLOUD_PRMS)
+        try:
+            self.amp.reset_prms()
+            ref = self.amp.run(ent['frame'].copy(deep=True), prms=copy.deepcopy(ent['model_at_build']))
+            dd = observe.diff_snap(observe.snapshot(ref), observe.snapshot(ent['chunk']))
+        except Exception:
+            dd = None
+        finally:
+            self.dynamic.AMPYCLOUD_PRMS = saved
+        if dd:
+            self.fail('snapshot-behaviour', 'chunk result differs from what its private parameter snapshot implies',
+                      dd)
 
     def op_edit_global(self, op):
         g = self.dynamic.AMPYCLOUD_PRMS
@@ -176,6 +201,7 @@ class Interp:
             return
         ent = self.chunks[op['chunk'] % len(self.chunks)]
         self._edit(ent['chunk'].prms, ent['model'], op, avoid_alias=True)
+        ent['compared'] = True     # its parameters were edited by the harness mid-way: no single snapshot applies
 
     def _edit(self, real, model, op, avoid_alias=False):
         how, path, val = op['how'], tuple(op['path']), op['val']
@@ -209,6 +235,14 @@ class Interp:
             return True
         except (KeyError, TypeError):
             return False
+
+    def op_exclude_present(self, op):
+        rows = self.scenes[op['scene'] % len(self.scenes)]['rows']
+        names = sorted(set(r[0] for r in rows))
+        name = names[op['which'] % len(names)]
+        self.dynamic.AMPYCLOUD_PRMS['EXCLUDE_FOR_BASE_HEIGHT_CALC'].append(name)
+        self.model_global['EXCLUDE_FOR_BASE_HEIGHT_CALC'].append(name)
+        self.nested_edit_seen = True
 
     def op_reset(self, op):
         self.amp.reset_prms()
@@ -358,6 +392,10 @@ def make_machine(ctx, sink):
         def edit_chunk_append(self, chunk, pv):
             path, val = pv
             self.do({'op': 'edit_chunk', 'chunk': chunk, 'how': 'append', 'path': list(path), 'val': val})
+
+        @rule(scene=st.integers(0, 2), which=st.integers(0, 3))
+        def exclude_present(self, scene, which):
+            self.do({'op': 'exclude_present', 'scene': scene, 'which': which})
 
         @rule()
         def reset(self):
